@@ -538,3 +538,49 @@ def table_head(eng, st, t):
                           is_ref(h.lget(c, 0)), TYP(p) == T("Tree"), f("data", p) == strv("particle"),
                           is_ref(f("children", p)), TYP(pc) == T("list"), h.llen(pc) == 1,
                           is_ref(h.lget(pc, 0)), TYP(tok) == T("Token"), is_str(f("value", tok))))
+
+
+# ---- lark.Visitor.visit: frame-level assumed contract ----------------------------------------------------------------
+@external("lark.visitors.Visitor.visit",
+          assumption="X-TREE: Visitor.visit(tree) calls the visitor's callbacks on sub-trees of `tree` only: it can change nothing "
+                     "but mutable nodes reachable from `tree` (token values) and the visitor's own tables; what the callbacks do to "
+                     "each node is their own contract (proved separately); it returns the tree")
+def visitor_visit(eng, s, args, kwargs):
+    from contracts.copy_model import REACH
+    from pyvc.heap import ARR_KINDS
+    visitor, tree = args[0], eng.as_val(s, args[1])
+    old = s.heap
+    troot = get_ref(tree.t)
+    # the caller must own everything the visitor may touch
+    r = z3.Int("vv_r")
+    eng.oblige(f"{eng.qual}.call.visit.frame@L{eng.cur_line}", s,
+               z3.ForAll([r], z3.Implies(REACH(troot, r), z3.Or(r >= eng.entry_alloc, in_frame_of(eng, r)))), "frame")
+    # the visitor's tables (dict attributes of the visitor object) may change as well
+    tables = []
+    cls = visitor.ty[4:] if visitor.ty and visitor.ty.startswith("obj:") else None
+    for c in (eng.reg.mro(cls) if cls else []):
+        k = eng.reg.classes.get(c)
+        for fname, fty in (k.fields.items() if k else []):
+            if fty == "dict":
+                tables.append(get_ref(old.get_field(visitor.ref, fname)))
+    for t in tables:
+        eng.check_write(s, t, "dict")
+    new = old.havoc(["dlen", "dkeys", "dhas", "didx", "dval"], ["value"], "visit")
+    new.alloc = smt.fresh("visit_alloc", smt.I)
+    s.assume(new.alloc >= old.alloc)
+    may_dict = lambda x: z3.Or([x == t for t in tables]) if tables else z3.BoolVal(False)
+    s.assume(*new.frame_facts(old, ["dlen", "dkeys", "dhas", "didx", "dval"], [], may_dict))
+    s.assume(*new.frame_facts(old, [], ["value"], lambda x: REACH(troot, x)))
+    s.assume(*new.closed_facts())
+    s.heap = new
+    # the tables stay str -> str maps (postcondition of every callback in dec.py that writes them)
+    kk = z3.Const("vv_k", Val)
+    for t in tables:
+        s.assume(*new.dict_wf(t))
+        s.assume(z3.ForAll([kk], z3.Implies(new.dhas(t, kk), z3.And(is_str(kk), is_str(new.dget(t, kk)))), patterns=[new.dhas(t, kk)]))
+    return [(tree, s)]
+
+
+def in_frame_of(eng, r):
+    from pyvc.values import in_frame
+    return in_frame(r, eng.modifies_refs)
